@@ -353,5 +353,10 @@ def helper_calls(outdir):
             off = int(open(os.path.join(p, 'offset')).read().strip() or -1)
         except OSError:
             continue
-        res.append({'argv': argv, 'stdin': stdin, 'fds': fds, 'offset': off})
+        try:
+            envp = open(os.path.join(p, 'environ'), 'rb').read().split(b'\0')[:-1]
+            cwd = open(os.path.join(p, 'cwd'), 'rb').read()
+        except OSError:
+            envp, cwd = None, None
+        res.append({'argv': argv, 'stdin': stdin, 'fds': fds, 'offset': off, 'environ': envp, 'cwd': cwd})
     return res
